@@ -230,6 +230,7 @@ ConInit ==
 ConWrapFor(cs) ==
   /\ gDepth < MaxDepth
   /\ (gDepth = 0 /\ ~Rich) => \E h \in 1..Len(cs) : cs[h] = gT
+  /\ gDepth = 0 => gT.k # "SEQ"          \* the composite leaf types (ConSharedRef, CorListOfChoice) are complete cases, not wrapped
   /\ LET ws == ConWraps(gEnv, gT) IN
        \E i \in 1..Len(ws) :
          /\ LegalWrap(gEnv, ws[i])
